@@ -59,10 +59,12 @@ Proof.
   intros cfg o c m b i. destruct m; cbn [apply_handshake];
     try (destruct c; reflexivity).
   - destruct (parse_version b0) as [[mj mn]|]; [|destruct c; reflexivity].
-    destruct c; unfold applied_close, applied_same, with_in; cbn.
+    destruct c; unfold applied_close, applied_same, with_in, needs_auth; cbn.
     repeat match goal with |- context [if ?x then _ else _] => destruct x end; reflexivity.
-  - destruct (negb (t =? primary_sec cfg)); [destruct c; reflexivity|].
-    destruct (g_haspw cfg); [destruct c; reflexivity|].
+  - replace (primary_sec cfg (set_in c i)) with (primary_sec cfg c) by (destruct c; reflexivity).
+    replace (needs_auth cfg (set_in c i)) with (needs_auth cfg c) by (destruct c; reflexivity).
+    destruct (negb (t =? primary_sec cfg c)); [destruct c; reflexivity|].
+    destruct (needs_auth cfg c); [destruct c; reflexivity|].
     replace (c_minor (set_in c i)) with (c_minor c) by (destruct c; reflexivity).
     destruct (c_minor c =? 889); [apply apply_init_set_in | destruct c; reflexivity].
   - replace (c_authres (set_in c i)) with (c_authres c) by (destruct c; reflexivity).
